@@ -6,22 +6,32 @@ Bounded-exhaustive exploration on the real functions (`opticomlib.utils.shortest
 shortest_int
     * EVERY data vector of length 1..8 over {0,1,2,3} (87 380 vectors = every tie pattern up to that
       size; thorough: length <= 9) x 6 percentages,
-    * EVERY vector of length <= 6 over the scale mix {0, 0.5, 1e-3, 7} (thorough: <= 8),
-    * EVERY vector of length <= 6 over the tiny-scale alphabet {0,1,2,3}*1e-11 (the statement is
-      scale free; thorough: <= 8),
+    * EVERY vector of length <= 6 (thorough: <= 8) over each of the float alphabets: scale mix {0, 0.5, 1e-3, 7}; tiny scale
+      {0,1,2,3}*1e-11; 'near' {0, 1e6, 2e6+1e-3, 3e6+3e-3} (large scale, widths 1e-9 apart in relative terms); 'ulp'
+      {1, 1+eps, 1+2eps, 1+3eps} (large offset, variation of one unit in the last place) - the statement is scale and offset free,
     * integer-dtype vectors of length <= 6 (thorough: <= 7): int64 {0,1,2,3}, int32 {-2,-1,0,1}, uint16 {0,1,2,3},
       full-scale int16 {-30000,0,3000,30000} (differences do not fit the dtype),
-    * the EDGE percentages (14 values: below 1 %, around 1 %, fractional with exact products, close to 100 %) x every
-      vector of length <= 7 over {0,1,2,3} (thorough: <= 8) and every int64 vector of length <= 6,
-    * seeded long vectors (64 ... 2^17; Gaussian / uniform / dyadic 16-level quantised; float64, float32 and raw integer
-      counts int32/int64/int16/uint16) with the standard and the edge percentages (lag >= 1 below 1 % needs > 100 samples).
-  Vectors are batched by their 3-symbol prefix: one `si_batch` call runs all vectors below a prefix
-  with all percentages.  Failing (vector, percent) pairs are re-registered as single-vector cases so
-  that the replay file holds exactly the smallest failing input.
+    * the EDGE percentages (16 values: 1e-9, below 1 %, around 1 %, fractional with exact products, close to 100 % up to
+      99.9999999) x every vector of length <= 7 over {0,1,2,3} (thorough: <= 8) and every int64 vector of length <= 6,
+    * si-forms: 11 spellings of the data argument (ndarray, list/tuple of floats and of ints, float32, float16, int8, uint8,
+      write-protected, strided view) x 10 spellings of the percentage (Python int/float, np.int64/int32/uint8/float64/float32,
+      0-d arrays, keyword) x every vector of length <= 4 (thorough: <= 5) over {0,1,2,3},
+    * si-lagscan: the lag clause on EVERY (percent, length) with percent a multiple of 1/2 in (0,100) and length 2..200
+      (thorough: multiples of 1/4, length <= 400), on a permutation of 0..len-1 (float64 and int64: the returned pair shows the
+      lag that was used) and on the same permutation of the triangular numbers (unique minimum),
+    * seeded long vectors (3 ... 2^17, incl. 9999 / 10^4 / 10^4+1 at 99.99 %; Gaussian / uniform / dyadic 16-level quantised;
+      float64, float32, float16, raw integer counts int8 ... int64 / uint8 / uint16, scaled by 1e-12 ... 1e6, on offsets of 1e6,
+      -1e9 and 1 with variations down to a few ulp) with the standard and the edge percentages.
+  Vectors are batched (one worker call per 3-symbol prefix / per form pair / per length).  Failing inputs are re-registered as
+  single-vector cases so that the replay file holds exactly the smallest failing input.
 
 ADC
-    adc      : 5 signal families x 7 lengths x 7 dtype forms (float64, float32, int32/int64/int16 counts, uint16 counts,
-               full-scale int16) x n in 1..12 x otype x {ndarray, container, container+noise}, a fresh input per call.
+    adc      : 5 signal families x 10 lengths x 17 dtype / value forms (float64, float32, float16, int8 ... int64 counts, uint8 /
+               uint16 counts, full-scale int16, scales 1e-12 ... 1e6, offsets) x n in 1..12 x otype x 8 input forms {ndarray,
+               container, container+noise, +all-zero noise, +noise of another dtype, the output of a first 3-bit-volt / 8-bit-code /
+               12-bit-volt conversion}, a fresh input per call (quick: the new forms as a deviation lattice around the base block).
+    adc-callforms: 10 spellings of the call (positional, fs=None, n as np.int64/int32/uint8/0-d array, otype as np.str_ / left
+               out, two configured global grids) on a sub-product.
     adc-sweep: family x length x dtype form x input form x {writable, write-protected}: ONE input object converted with all
                24 (n, otype) in turn; every conversion is judged against the signal handed over before the first call and
                the argument's bytes are compared with a snapshot after every call.
@@ -42,8 +52,8 @@ from mcx.core.kernel import res
 
 ID = 'C18'
 LEVEL = 'exploration'
-NONTRIVIAL = ('shortest_int: distinct (sorted data, percent) with a repeated data value, lag >= 1 and >= 2 '
-              'candidate windows; ADC: distinct (signal, length, n, otype, input form) whose output uses >= 2 '
+NONTRIVIAL = ('shortest_int: distinct (sorted data, percent[, spelling]) with a repeated data value, lag >= 1 and >= 2 '
+              'candidate windows (lag scan: distinct (vector, length, percent) with lag >= 1 and >= 2 windows); ADC: distinct (signal, length, n, otype, input form) whose output uses >= 2 '
               'levels (tag carries whether samples fall outside the estimated range, i.e. saturation is exercised)')
 
 PERCENTS = (10, 25, 50, 75, 90, 99.99)
@@ -289,11 +299,15 @@ def si_form_eval(vec, p, dform, pform):
     """one vector in one (data form, percent form).  A failure that the base form (float64 ndarray, Python number) shows
     as well keeps its key; a failure that only the spelling shows gets the key of the spelling."""
     key, msg, otag, nt = _si_eval(vec, p, float, dform, pform)
-    if key is not None:
-        bkey = _si_eval(vec, p, float)[0]
-        if bkey is None:
-            key, msg = f'SI:form-dependent:data={dform},percent={pform}', f'[{key}] (the float64-ndarray / Python-number call ' \
-                                                                         f'of the same input is right) ' + msg
+    if key is not None and _si_eval(vec, p, float)[0] is None:
+        if _si_eval(vec, p, float, dform, 'py')[0] is not None:         # the data spelling alone does it
+            what = f'data={dform}'
+        elif _si_eval(vec, p, float, 'ndarray', pform)[0] is not None:  # the percent spelling alone does it
+            what = f'percent={pform}'
+        else:
+            what = f'data={dform},percent={pform}'
+        key, msg = f'SI:form-dependent:{what}', f'[{key}] (data as {dform}, percent as {pform}; the float64-ndarray / ' \
+                                                f'Python-number call of the same input is right) ' + msg
     return key, msg, otag, nt
 
 
